@@ -274,11 +274,47 @@ def signal_derivative_chain(d, N, kind):
         cur, coeff, deg = nxt, want, deg - 1
 
 
+def native_spline_method():
+    """the SplineMethod clauses (replay/spline_method_native.py): spline_method.py is out of the symbolic engine's reach, so
+    it is exercised on the real CasADi (networkx taken from the tooling venv) -- a bounded native stand-in"""
+    import json, os, subprocess
+    c = ctx()
+    VERIF = os.path.dirname(os.path.dirname(os.path.abspath(__file__)))
+    repo = os.environ.get("VERIF_REPO", "/repo")
+    nx_dir = nx_path(VERIF)
+    env = dict(os.environ, PYTHONPATH=os.pathsep.join([repo, VERIF, nx_dir]), PYTHONDONTWRITEBYTECODE="1")
+    p = subprocess.run([os.environ.get("VERIF_NATIVE_PY", "/venv/bin/python"), os.path.join(VERIF, "replay", "spline_method_native.py")], capture_output=True, text=True, env=env,
+                       timeout=1800, cwd=os.path.join(VERIF, "out"))
+    if p.returncode != 0 or not p.stdout.strip():
+        raise RuntimeError("native SplineMethod harness failed: " + p.stderr[-600:])
+    for r in json.loads(p.stdout.strip().splitlines()[-1]):
+        name = "spline_method:SplineMethod:ensures:%s[%s]" % (r["what"], r["config"])
+        (c.ok(name, backend="enumerated-native") if r["ok"] else c.fail(name, r["detail"]))
+
+
+def nx_path(VERIF):
+    """a directory that makes `import networkx` work for the native interpreter: networkx is pure Python and lives in the
+    tooling venv only; a symlink under out/ puts just that package on the path"""
+    import os
+    d = os.path.join(VERIF, "out", "nx")
+    os.makedirs(d, exist_ok=True)
+    link = os.path.join(d, "networkx")
+    if not os.path.exists(link):
+        import networkx
+        try:
+            os.symlink(os.path.dirname(networkx.__file__), link)
+        except FileExistsError:
+            pass
+    return d
+
+
 _tasks1 = tasks
 
 
 def tasks(tier):
     out = _tasks1(tier)
+    out.append(Task("C17/SplineMethod-native", native_spline_method, kind="enumerated", replay=dict(harness="spline_method_probe"),
+                    bound=dict(systems=["double integrator", "mixed vector chains", "higher-order control"], N=[2, 3, 5], T=[1, 2.5], grids=["uniform", "geometric"], refine=[1, 2, 3], points="one random decision vector per configuration")))
     for d in (1, 2, 3, 4):
         for N, kname in ((2, "uniform"), (3, "geometric")):
             inst = "C17/derivative-chain[d=%d,N=%d,%s]" % (d, N, kname)
